@@ -180,3 +180,18 @@ package security
 //@   ensures fresh(result) && result.stream == s && !result.sessionResumed
 //@   ensures private_config: result.config != nil && (result.ecdhPrivKey != nil ==> result.config != config && fresh(result.config))
 //@   ensures policy_copied: result.config.Authentication == config.Authentication && result.config.Encryption == config.Encryption && result.config.Integrity == config.Integrity && result.config.Command == config.Command && result.config.SecurityTag == config.SecurityTag && result.config.SessionCache == config.SessionCache && result.config.PeerName == config.PeerName && result.config.SessionID == config.SessionID
+
+// ---- decoder safety (C13): preconditions of helpers whose arguments size an allocation ---------
+
+//@ func deriveSessionKey (sessionKey, keyLen) (result, err)
+//@   props C13
+//@   requires key_len_bounded: 0 <= keyLen && keyLen <= 64
+
+//@ func (*SSLAuthenticator).exchangeSessionKey
+//@   props C13
+//@   loop 1 invariant key_read: 0 <= totalRead && totalRead <= 256 && len(ssl.sessionKey) == 256
+//@   loop 2 invariant key_written: 0 <= totalWritten && totalWritten <= 256 && len(ssl.sessionKey) == 256
+
+//@ func (*SSLAuthenticator).exchangeSciToken
+//@   props C13
+//@   loop 1 invariant token_read: 0 <= totalRead && totalRead <= tokenSize && len(tokenBytes) == tokenSize
